@@ -84,10 +84,16 @@ def zip_entries(b: bytes):
         return None
 
 
+PREFIXES = []   # (bytes, token): known contents a file object sink may be appended to
+
+
 def token_of(b: bytes, known: dict, new_entries) -> list:
     h = sha(b)
     if h in known:
         return known[h]
+    for pb, tok in PREFIXES:
+        if len(b) > len(pb) and b.startswith(pb):
+            return tok + token_of(b[len(pb):], known, new_entries)
     if new_entries is not None and zip_entries(b) == new_entries:
         return NEW_TOKEN
     if len(b) == 0:
@@ -336,6 +342,7 @@ class Tracer:
             fn()
         except BaseException as e:  # SystemExit from argparse included
             exc = (type(e).__name__, str(e)[:300])
+            self.last_exc = e
         finally:
             self.armed = False
             sys.stderr = old_err
@@ -563,6 +570,9 @@ def mode_convert(req):
     exc = tr.run(lambda: main_cli(argv))
     final = structured_state(tr.namer, known, new_entries)
     exc_enum = None
+    if exc:
+        e = tr.last_exc
+        exc_enum = type(e).__name__ if isinstance(e, (OSError, SystemExit)) else err_enum(e)
     oracle = {}
     # where did the archive go?
     newfiles = [p for p, t in final["files"].items() if t == NEW_TOKEN]
@@ -583,7 +593,7 @@ def mode_convert(req):
     else:
         oracle["input_unchanged"] = False
     return {"argv": argv, "timeline": tr.timeline, "initial": initial, "final": final, "exc": exc,
-            "logs": tr.logs, "info": tr.info, "hook_errors": tr.errors, "saved": saved,
+            "logs": tr.logs, "info": tr.info, "hook_errors": tr.errors, "saved": saved, "exc_enum": exc_enum,
             "untrusted": untrusted, "oracle": oracle, "input_model": inp.replace(S, "/S") if inp.startswith(S) else inp,
             "output_model": (output.replace(S, "/S") if output.startswith(S) else output) if output is not None else None}
 
@@ -651,6 +661,9 @@ def build(spec, hole_path, bad_kind, path=()):
         for i, c in enumerate(spec["c"]):
             a[i] = build(c, hole_path, bad_kind, path + (i,))
         return a
+    if t == "est":
+        from sklearn.linear_model import LogisticRegression
+        return LogisticRegression(C=spec.get("C", 1.0))
     if t == "pipeline":
         from sklearn.pipeline import Pipeline
         from sklearn.preprocessing import StandardScaler
@@ -674,6 +687,13 @@ def mode_dump(req):
             try:
                 data = sio.dumps(obj)
                 saved, new_entries = "ok", zip_entries(data)
+                if case["hole"] is not None:
+                    # an element believed unsupported went through: is what dumps returned a complete archive?
+                    try:
+                        back = sio.loads(data, trusted=sio.get_untrusted_types(data=data))
+                        res["roundtrip"] = "equal" if canon_obj(back) == canon_obj(build(case["spec"], case["hole"], case["bad"])) else "different"
+                    except Exception as e2:
+                        res["roundtrip"] = "load-fails:" + type(e2).__name__
             except Exception as e:
                 saved, new_entries = "raise", None
                 res["dumps_exc"] = type(e).__name__
@@ -681,6 +701,7 @@ def mode_dump(req):
             known = {}
             old = b"EXISTING-DESTINATION"
             known[sha(old)] = [2]
+            PREFIXES[:] = [(old, [2])]
             target = os.path.join(S, "d", "model.skops")
             sink_kind = case["sink"]
             if sink_kind in ("existing", "fileobj_existing"):
